@@ -50,6 +50,9 @@ pub struct StreamsProbe {
     pub stream_receive_window: u64,
     /// Received-but-unread bytes buffered over all streams
     pub recv_buffered: u64,
+    /// Per receive stream: (estimated allocated bytes, upper bound of distinct outstanding bytes,
+    /// chunks held) of its reassembly buffer
+    pub recv_memory: Vec<(usize, u64, usize)>,
     /// Locally initiated streams opened, per direction (bi, uni)
     pub next: [u64; 2],
     /// Peer-granted stream limits, per direction
@@ -117,6 +120,9 @@ pub struct Probe {
     pub close_pending: bool,
     /// MTU upper bound peer allows
     pub peer_max_udp_payload_size: u64,
+    /// Per packet-number space: (estimated allocated bytes, upper bound of distinct outstanding
+    /// bytes, chunks held) of the CRYPTO reassembly buffer
+    pub crypto_memory: [(usize, u64, usize); 3],
 }
 
 impl Connection {
@@ -184,6 +190,11 @@ impl Connection {
             rem_cid: self.rem_cids.active().to_vec(),
             close_pending: self.close,
             peer_max_udp_payload_size: self.peer_params.max_udp_payload_size.into_inner(),
+            crypto_memory: [
+                self.spaces[SpaceId::Initial].crypto_stream.verif_memory(),
+                self.spaces[SpaceId::Handshake].crypto_stream.verif_memory(),
+                self.spaces[SpaceId::Data].crypto_stream.verif_memory(),
+            ],
         }
     }
 }
